@@ -190,6 +190,14 @@ pub fn deep_index_case(n: usize) -> Case {
     c
 }
 
+/// `n` single-entry blocks under one index leaf (fan-out 4096): a node of 64 KiB and more
+pub fn wide_node_case(n: usize) -> Case {
+    let mut c = big_case(n, 1);
+    c.opts.block_size = 4096;
+    c.opts.zoom = ZoomSpec::Manual(vec![]);
+    c
+}
+
 /// a supplied schema of about `bytes` bytes (long field comments), 3 + 2 fields
 pub fn long_autosql_case(bytes: usize) -> Case {
     let pad = "x".repeat(bytes / 2);
@@ -241,6 +249,7 @@ impl Prop for C02 {
             // scale thresholds: an index search that has to visit more than 2^16 nodes (fan-out 2 over
             // 70 000 single-entry blocks), a schema longer than any 8 KiB read buffer
             deep_index_case(70_000),
+            wide_node_case(3000),
             long_autosql_case(9_000),
             long_autosql_case(70_000),
             // a schema text that starts with a byte order mark / a zero-width character (kept verbatim)
